@@ -979,6 +979,9 @@ class VectorExpression:
             >>> d.evaluate({"x[0]": 1, "x[1]": 2, "x[2]": 3, "y[0]": 4, "y[1]": 5, "y[2]": 6})
             32.0
         """
+        if isinstance(other, (np.ndarray, list, tuple)):
+            # Constant coefficients: same as vector @ array
+            return self @ np.asarray(other)  # type: ignore[return-value]
         return DotProduct(self, other)
 
     def __matmul__(
@@ -1338,6 +1341,10 @@ class VectorVariable:
                 if same_elements:
                     # This is x.dot(A @ x) - return QuadraticForm for O(1) gradient
                     return QuadraticForm(self, other.matrix)
+
+        if isinstance(other, (np.ndarray, list, tuple)):
+            # Constant coefficients: same as vector @ array
+            return self @ np.asarray(other)
 
         return DotProduct(self, other)
 
